@@ -20,6 +20,7 @@ pub trait Oracle {
 pub const TAG_CLEAN: u64 = 1 << 40;
 pub const TAG_OP: u64 = 2 << 40;
 pub const TAG_CONNECT: u64 = 3 << 40;
+pub const TAG_FAULTS_ON: u64 = 4 << 40;
 pub const TAG_USER: u64 = 8 << 40;
 
 #[derive(Clone, Debug)]
@@ -83,6 +84,10 @@ pub struct BasicOpts {
     pub idle_choices: Vec<Option<u64>>,
     /// clients pad every 1-RTT datagram to the MTU (room for the tap to overwrite plaintext)
     pub force_client_pad: bool,
+    /// the fault phase begins this late (the network is clean before)
+    pub fault_start: Ns,
+    /// rustls server configuration to use instead of the default one
+    pub server_tls: Option<quinn_proto::rustls::ServerConfig>,
 }
 
 impl Default for BasicOpts {
@@ -123,6 +128,8 @@ impl Default for BasicOpts {
             keepalive_rate: 0,
             idle_choices: vec![Some(30_000)],
             force_client_pad: false,
+            fault_start: 0,
+            server_tls: None,
         }
     }
 }
@@ -201,7 +208,8 @@ impl Basic {
         let gso_s = 1 + w.ch.choose("basic.gso_s", 10) as usize;
         let sep = EpOpts { seed: 0x5E47 ^ w.ch.choose("basic.epseed", 1 << 16) as u64, cid_len, cid_lifetime: opts.cid_lifetime_ms.map(Duration::from_millis), ..Default::default() };
         let st = Arc::new(sk.build());
-        let crypto_s = if opts.use_tap { cfgs::tapped_server_crypto(&w.tap, 0, cfgs::rustls_server(opts.big_cert, true)) } else { cfgs::untapped_server_crypto(cfgs::rustls_server(opts.big_cert, true)) };
+        let tls_s = opts.server_tls.clone().unwrap_or_else(|| cfgs::rustls_server(opts.big_cert, true));
+        let crypto_s = if opts.use_tap { cfgs::tapped_server_crypto(&w.tap, 0, tls_s) } else { cfgs::untapped_server_crypto(tls_s) };
         let mut scfg = cfgs::server_config(crypto_s, 0x70, st, clock.clone());
         scfg.migration(opts.server_migration);
         let server_ep = Endpoint::new(Arc::new(cfgs::endpoint_config(&sep)), Some(Arc::new(scfg)), true);
@@ -228,10 +236,14 @@ impl Basic {
 
         // fault phase
         let fault_ms = if opts.fault_phase_max_ms == 0 || w.ch.chance("basic.fault_free", 1, 6) { 0 } else { w.ch.range("basic.fault_ms", 1, opts.fault_phase_max_ms) };
-        let fault_end = fault_ms * MS;
+        let fault_end = if fault_ms > 0 { opts.fault_start + fault_ms * MS } else { 0 };
         w.net.base_delay = *w.ch.pick("basic.delay", &[5 * MS, MS, 20 * MS, 100 * MS, 400 * MS, 50_000]);
         if fault_ms > 0 {
-            w.net.faults = true;
+            if opts.fault_start == 0 {
+                w.net.faults = true;
+            } else {
+                w.wake_at(opts.fault_start, TAG_FAULTS_ON);
+            }
             // swarm: each kind enabled with probability 1/2, most at low rates
             if opts.allow_drop && w.ch.chance("swarm.drop", 1, 2) {
                 w.net.drop = *w.ch.pick("rate.drop", &[20u32, 5, 50, 100, 200, 400]).min(&opts.max_drop);
@@ -492,6 +504,9 @@ impl Scenario for Basic {
             w.net.partitions.clear();
             w.drv.late = 0;
             w.logf(|| "--- fault phase over ---".to_string());
+        } else if tag == TAG_FAULTS_ON {
+            w.net.faults = true;
+            w.logf(|| "--- fault phase begins ---".to_string());
         } else if tag == TAG_USER - 1 {
             w.net.partitions.clear();
             w.logf(|| "partition healed".to_string());
